@@ -189,6 +189,12 @@ def run(tier='quick'):
                         'on a trigger keeps a placeholder row (path NULL) that tracks() leaves out; a probe without the '
                         'filter accepts its id as a track', floor=4)
     track_row_filter_agreement(prog, eff, chk, K8)
+    K9 = chk.rule('K9', 'a track added to a crate is listed with the earlier ones: the function that inserts a row into PlaylistEntity makes the previous tail point at it: the id written into the old '
+                        'tail is last_insert_rowid() read after the INSERT (not a predicted MAX(id) + 1, wrong once the '
+                        'highest row of the AUTOINCREMENT table was deleted), and the old tail is found as the row of the '
+                        'list whose next-pointer is the sentinel 0 (not by its id)', floor=1)
+    from . import extra
+    extra.new_tail_linked(prog, cg, eff, chk, K9)
     return chk.finish('value-flow interpretation of the membership operations of both implementations '
                       '(id kinds of bound values, event order), reference graph and triggers read from the DDL '
                       'of every schema version')
